@@ -9,7 +9,7 @@ from vlib import env, gen  # noqa: F401
 def names_with_hydrogens(draw, n, level):
     """At least one non-hydrogen atom."""
     names = draw(gen.atom_names(n, hydrogens=level))
-    if all(nm.startswith("H") for nm in names):
+    if all(is_hydrogen(nm) for nm in names):
         k = draw(st.integers(0, n - 1))
         names[k] = "C%d" % (k + 1)
     return names
